@@ -1,5 +1,5 @@
 PROPS["C20"] = {
-    "streams": ["c20a"],
+    "streams": ["c20a", "c20w"], "retry_divergence": 2,
     "timeout": 600,
     "design_ref": "DESIGN.md §7 C20, §6 F7",
     "rule": "L0 part: the real couchbase.NewAsyncOp(ctx) under a fake gocbcore.PendingOp. Deterministic scripts (imm/pre/mid/silent/late/precancel): "
